@@ -38,7 +38,8 @@ RULE = ("per case: one operator (uniform over the catalogue), parameters aimed a
         "predicate/key/comparer tables over the case's small value alphabet incl. raising entries and non-bool truthy results), a hot "
         "timeline of 0..12 elements with duplicates and falsy values, equal timestamps, terminal kinds balanced (completed/error/none) and "
         "~15% non-conforming tails (emissions after the terminal, second terminal); recorded at subscriber level (70%) or by a raw observer "
-        "without disposal feedback (30%). Non-trivial = output differs from the conforming input or a callback raised or the input is non-conforming.")
+        "without disposal feedback (30%); plus 1200 RE-ENTRANT cases (oracle only): the source is a Subject and the consumer pushes the next pending "
+        "element into it from inside its own on_next, so the operator's handler is re-entered during its downstream call. Non-trivial = output differs from the conforming input or a callback raised or the input is non-conforming.")
 ASSUMPTIONS = [
     "single-threaded / virtual-time execution; source = one hot observable (the property quantifies over finite timelines)",
     "downstream observer callbacks return normally (raising subscribers are C01/C09's subject)",
@@ -184,9 +185,24 @@ def gen_case(rng, vals=VALS, ops_list=OPS):
     return case
 
 
+# Operators that still have to wait for a fix before they can be put on a re-entrant source (none: element_at and
+# find / find_index were fixed by c373a15 / 8cbe136 — they now record the match before emitting it).
+REENTRANT_PENDING_FIX = set()
+
+
+def reentrant_skip():
+    return REENTRANT_PENDING_FIX
+
+
 def cases(rng, tier):
     for _ in range(fw.tier_scale(tier, 4000, 60000)):
         yield gen_case(rng)
+    # re-entrant feedback source (oracle only): the consumer pushes the next element from inside its own on_next
+    skip = reentrant_skip()
+    for _ in range(fw.tier_scale(tier, 1200, 15000)):
+        c = gen_case(rng, ops_list=[o for o in OPS if o not in skip])
+        c["mode"] = "feedback"
+        yield c
 
 
 # ----------------------------------------------------------------------------------------- real code
@@ -361,9 +377,13 @@ def run_feedback(case, make_observable):
         finally:
             depth[0] -= 1
 
+    armed = [False]
+
     def on_next(v):
         out.append(["N", _val(v)])
-        if pending and depth[0] < 40:
+        # only ELEMENTS are fed back re-entrantly (a terminal is pushed from the top level once the chain has unwound), and
+        # only once subscribe() has returned (what a hot source emits before the operator subscribed it is lost by design)
+        if armed[0] and pending and pending[0][0] == "N" and depth[0] < 40:
             push()
 
     try:
@@ -372,6 +392,7 @@ def run_feedback(case, make_observable):
         return {"ctor": err_name(e)}
     esc = []
     result.subscribe(on_next, lambda e: out.append(["E", err_name(e)]), lambda: out.append(["C"]))
+    armed[0] = True
     while pending:
         try:
             push()
